@@ -34,12 +34,27 @@ def rand_ops(rng, n, with_set):
         elif r < 0.3:
             ops.append("P")
         else:
-            ops.append("L%d:%d:%d" % (rng.randint(1, 6), rng.choice([0, 0, 1, 5, 40, 300, 2000]), rng.randint(0, 3)))
+            ops.append("L%d:%d:%d:%d" % (rng.randint(1, 6), rng.choice([0, 0, 1, 5, 40, 300, 2000]), rng.randint(0, 3),
+                                         rng.choice([0, 0, 0] + list(range(1, NSUBJ)))))
     return ops
 
 
+NSUBJ = 11   # log subjects of the harness: 0 built-in, 1..9 registered with names of 1..300 characters, 10 unregistered
+SUBJ_LEN = [12, 1, 13, 40, 80, 88, 89, 90, 120, 300, 7]
+
+
+def burst_scenario(rng):
+    """many short lines from several threads at once: the background thread has batches in flight while the pending
+    list keeps growing past its initial capacity"""
+    lines = ["LOGGER bg 6 %s" % rng.choice(["iso", "rfc"])]
+    for k in range(1, rng.randint(2, 3) + 1):
+        lines.append("PRODUCER %d %s" % (k, " ".join("L%d:%d:0:%d" % (rng.randint(1, 6), rng.choice([0, 1, 3]), rng.choice([0, 0, 2]))
+                                                     for _ in range(rng.randint(10, 30)))))
+    return lines
+
+
 def random_scenario(rng):
-    lines = ["LOGGER %s %d" % (rng.choice(["bg", "bg", "fg", "na"]), rng.randint(0, 6))]
+    lines = ["LOGGER %s %d %s" % (rng.choice(["bg", "bg", "fg", "na"]), rng.randint(0, 6), rng.choice(["iso", "iso", "rfc"]))]
     if rng.random() < 0.6:
         lines.append("PRE " + " ".join(rand_ops(rng, rng.randint(1, 4), True)))
     for k in range(1, rng.randint(0, 3) + 1):
@@ -67,6 +82,15 @@ def formatter_scenarios(rng, thorough):
     for f in range(0, 7):
         for lv in range(1, 7):
             lines.append("NOALLOC %d %d %d %d" % (f, lv, rng.choice([0, 3, 50]), rng.randint(0, 3)))
+    out.append(lines)
+    # subject names of every registered length x level, ample and tight buffers, and through the no-alloc logger
+    lines = []
+    for sl in SUBJ_LEN + ([0, 2, 60, 87, 95, 100, 200] if thorough else [0, 100]):
+        for lv in range(1, 7) if thorough else (rng.randint(1, 6), rng.choice([3, 4])):
+            lines.append("FMT %d %d %d %d %d" % (sl + 400, lv, rng.choice([0, 7, 100]), rng.choice([0, 1, 3]), sl))
+            lines.append("FMT %d %d %d %d %d" % (sl + rng.randint(20, 130), lv, rng.choice([0, 7, 100]), 0, sl))
+    for sl in SUBJ_LEN:
+        lines.append("NOALLOC 6 %d %d %d %d" % (rng.randint(1, 6), rng.choice([0, 40, 8000]), rng.randint(0, 3), sl))
     out.append(lines)
     lines = []
     for plen in [0, 1, 100, 5000, 8000, 8080, 8090, 8100, 8105, 8110, 8115, 8120, 8130, 8150, 8191, 8192, 8193, 8300, 20000, 60000]:
@@ -104,6 +128,8 @@ def run(ctx):
         sc = random_scenario(rng)
         pol = rng.choice(["pct %d 2 80", "pct %d 3 120", "rand %d", "pct %d 1 60"]) % rng.randrange(1, 10 ** 6)
         blocks.append((pol, sc))
+    for _ in range(40 if not thorough else 800):
+        blocks.append((rng.choice(["rand %d", "pct %d 3 200", "pct %d 5 400"]) % rng.randrange(1, 10 ** 6), burst_scenario(rng)))
     for sc in formatter_scenarios(rng, thorough):
         blocks.append(("fixed -", sc))
     for pol, sc in blocks:
